@@ -1117,11 +1117,13 @@ class Node:
         processed_req_per_second_overall = 0
         avg_response_time_overall = 0
         if total_requests_count > 0:
-            processed_req_per_second_overall = total_requests_count / req_per_sec_total_time
+            # processing times are rounded up to full seconds; when every
+            # request was handled within one clock tick the sum is still zero
+            processed_req_per_second_overall = total_requests_count / max(req_per_sec_total_time, 1)
             avg_response_time_overall = avg_res_total_time / total_requests_count
 
         processed_req_per_second = {
-            name: req_count[name] / req_time[name]
+            name: req_count[name] / max(req_time[name], 1)
             for name in req_count.keys()}
 
         avg_response_time = {
